@@ -708,6 +708,9 @@ class Sim:
         st, copy = call(self.durable_copy, f)
         if st == "exc":
             return self.restart_failed(copy, "eq")
+        # read everything from the live object between taking the copy and comparing: reading is not an edit,
+        # so the live object must still equal the copy taken before
+        self.check_all()
         st, v = call(lambda: f == copy)
         if st == "exc" or v is not True:
             self.fail("mapping:eq-false-for-equal", got=v if st == "ok" else exc_name(v))
